@@ -50,6 +50,7 @@ def merge_sql(op, sc):
 
 class C12(Prop):
     id = "C12"
+    noise_sample = 300
     gen_module = "FsMergeGen"
     judge_module = "FsMergeJudge"
     assumptions = [
